@@ -215,6 +215,9 @@ FamOList(z) == UNION {{C5("olist", t, gv) : gv \in HetLists(b, "iface") \cup Het
                                          t \in OneList(b)} : b \in OutBases}
 FamOTyped(z) == UNION {{C5("otyped", t, gv) : gv \in HomLists("typed", TypedPools) \cup HomLists("refl", ReflPools) \cup ArrLists,
                                           t \in {ListOf(Named(b)), NonNull(ListOf(NonNull(Named(b))))}} : b \in OutBases}
+\* a flat typed slice / reflected slice / array where a list of LISTS is declared: every element is misplaced
+FamOTyped2(z) == UNION {{C5("otyped2", t, gv) : gv \in HomLists("typed", TypedPools) \cup HomLists("refl", ReflPools) \cup ArrLists,
+                                           t \in TwoList(b)} : b \in OutBases}
 GInner(b, lk) == {Null, GList(lk, "", <<>>), GList(lk, "", <<CHOOSE e \in GElems(b) : LeafOut(USchema, b, e).k \notin {"errnull", "may", "null"}>>),
                   GList(lk, "", <<CHOOSE e \in GElems(b) : LeafOut(USchema, b, e) = ErrJ>>), Str("abc")}
 OL2(b, lk) == {GList(lk, "", s) : s \in SeqsUpTo(GInner(b, lk) \cup {GList("typed", "int", <<Num("i1", "int"), Num("i2p32p1", "int")>>)}, 2)}
@@ -240,6 +243,7 @@ FamilyOf(f) ==
     [] f = "oleaf" -> FamOLeaf(0)
     [] f = "olist" -> FamOList(0)
     [] f = "otyped" -> FamOTyped(0)
+    [] f = "otyped2" -> FamOTyped2(0)
     [] f = "olist2" -> FamOList2(0)
     [] f = "oobj" -> FamOObj(0)
 
